@@ -21,7 +21,7 @@ enum Op {
     Run(usize),
 }
 
-const SOURCES: [&str; 28] = [
+const SOURCES: [&str; 31] = [
     "|12 34 56| var b",
     "b open-bitstr 8 bits drop 4 bits",
     "|ff| b bitstr-append ! b",
@@ -52,6 +52,11 @@ const SOURCES: [&str; 28] = [
     "dup open-bitstr offset remain close-bitstr",
     "[ 1 2 3 ] >bitstr open-bitstr 1 bytes close-bitstr",
     "w",
+    // an input opened and left open (the stash of suspended inputs is part of the copy), closed later
+    "|12 34 56| open-bitstr 8 bits drop",
+    "close-bitstr offset remain",
+    // a vector read with `get`
+    "[ 7 8 ] 0 get",
 ];
 const D2_PROBE: &str = "d2-width d2-height 1 1 d2-data";
 const COPIES: usize = 3;
@@ -157,7 +162,7 @@ fn op_text(op: &Op) -> String {
 
 fn alphabet(quick: bool) -> Vec<Op> {
     let mut ops = vec![Op::Clone(0, 1), Op::Clone(1, 2), Op::Clone(0, 2)];
-    let srcs: Vec<usize> = if quick { vec![0, 2, 3, 5, 6, 7, 8, 10, 11, 12, 13, 14, 15, 16, 18, 20, 22, 23, 24, 25, 26, 27] } else { (0..SOURCES.len()).collect() };
+    let srcs: Vec<usize> = if quick { vec![0, 2, 3, 5, 6, 7, 8, 10, 11, 12, 13, 14, 15, 16, 18, 20, 22, 23, 24, 25, 26, 27, 28, 29, 30] } else { (0..SOURCES.len()).collect() };
     for x in 0..2 {
         for s in &srcs {
             ops.push(Op::Eval(x, *s));
@@ -482,7 +487,7 @@ mod observers {
         }
         Some(())
     }
-    pub fn run(depth: usize, rep: &Reporter) -> (u64, u64, usize) {
+    pub fn run(depth: usize, threads: usize, rep: &Reporter) -> (u64, u64, usize) {
         let srcs = sources();
         let mut ops = vec![O::Clone, O::DropB];
         for s in 3..srcs.len() {
@@ -494,25 +499,47 @@ mod observers {
             }
         }
         let _q = Quiet::new();
-        let (mut nh, mut checks) = (0u64, 0u64);
-        for output_on in [false, true] {
-            let mut hist: Vec<usize> = vec![];
-            // odometer over all histories of length 1..=depth
-            fn rec(ops: &[O], hist: &mut Vec<usize>, depth: usize, srcs: &[String], output_on: bool, rep: &Reporter, nh: &mut u64, checks: &mut u64) {
-                if hist.len() == depth {
-                    return;
+        // every history of length 1..=depth; the work is split by the first two operations
+        fn rec(ops: &[O], hist: &mut Vec<usize>, depth: usize, srcs: &[String], output_on: bool, rep: &Reporter, nh: &mut u64, checks: &mut u64) {
+            if hist.len() == depth {
+                return;
+            }
+            for k in 0..ops.len() {
+                hist.push(k);
+                if run_hist(ops, hist, srcs, output_on, rep, checks).is_some() {
+                    *nh += 1;
+                    rec(ops, hist, depth, srcs, output_on, rep, nh, checks);
                 }
-                for k in 0..ops.len() {
-                    hist.push(k);
-                    if run_hist(ops, hist, srcs, output_on, rep, checks).is_some() {
-                        *nh += 1;
-                        rec(ops, hist, depth, srcs, output_on, rep, nh, checks);
+                hist.pop();
+            }
+        }
+        let n = ops.len();
+        let totals = par_run(threads, 2 * n * n, 1, |_t, pull| {
+            let (mut nh, mut checks) = (0u64, 0u64);
+            while let Some(r) = pull() {
+                for item in r {
+                    let output_on = item / (n * n) == 1;
+                    let (a, b) = ((item / n) % n, item % n);
+                    let mut hist = vec![a];
+                    if run_hist(&ops, &hist, &srcs, output_on, rep, &mut checks).is_none() {
+                        continue;
                     }
-                    hist.pop();
+                    if b == 0 {
+                        nh += 1; // the one-operation history is counted once
+                    }
+                    if depth >= 2 {
+                        hist.push(b);
+                        if run_hist(&ops, &hist, &srcs, output_on, rep, &mut checks).is_some() {
+                            nh += 1;
+                            rec(&ops, &mut hist, depth, &srcs, output_on, rep, &mut nh, &mut checks);
+                        }
+                    }
                 }
             }
-            rec(&ops, &mut hist, depth, &srcs, output_on, rep, &mut nh, &mut checks);
-        }
+            (nh, checks)
+        });
+        let nh: u64 = totals.iter().map(|t| t.0).sum();
+        let checks: u64 = totals.iter().map(|t| t.1).sum();
         (nh, checks, ops.len())
     }
 }
@@ -580,7 +607,7 @@ pub fn run(cfg: &Cfg) -> i32 {
     let mut repl_runs = 0u64;
     {
         use crate::repl_leg::*;
-        let setup: Vec<&str> = if quick { vec!["", "|12 34 56| var b [ 1 2 ] var v 5 var g", ": w 1 ; { 1 \"k\" } var m"] } else { vec!["", "|12 34 56| var b", "[ 1 2 ] var v", "5 var g", ": w 1 ;", "{ 1 \"k\" } var m", "late q : u q ;", "|12 34 56| var b [ 1 2 ] var v 5 var g : w 1 ; { 1 \"k\" } var m"] };
+        let setup: Vec<&str> = if quick { vec!["", "|12 34 56| var b [ 1 2 ] var v 5 var g", ": w 1 ; { 1 \"k\" } var m"] } else { vec!["", "|12 34 56| var b", "[ 1 2 ] var v", "5 var g", ": w 1 ;", "{ 1 \"k\" } var m", "late q : u q ; : q 1 ;", "|12 34 56| var b [ 1 2 ] var v 5 var g : w 1 ; { 1 \"k\" } var m"] };
         let muts: Vec<&str> = if quick {
             vec!["|ff| b bitstr-append ! b", "b bitstr-not ! b", "3 v push ! v", "g 1 + ! g", ": w 2 ;", "m 2 \"j\" insert ! m", "7 8", "3 2 d2-resize 7 d2-color! 1 1 d2-data!"]
         } else {
@@ -644,8 +671,65 @@ pub fn run(cfg: &Cfg) -> i32 {
         cleanup();
     }
     ev.add("repl_process_runs", ji(repl_runs));
-    // ---------- observer leg (sequential: it redirects the process's stdout)
-    let (oh, ochecks, oalpha) = observers::run(if quick { 3 } else { 4 }, &rep);
+    // ---------- long recorded histories: a copy taken at step k of a recorded run of ~10^5 steps runs to the same
+    // end as the original and rewinds through the same states (growth policies of the containers behind the
+    // stacks and the reverse log differ between a grown container and its copy; behaviour must not)
+    {
+        let prog = "0 14000 0 do 1 + loop";
+        let mut longrun = vec![];
+        for k1 in [5usize, 3_000, 40_000] {
+            let mut a = fresh();
+            a.set_recording_enabled(true);
+            let _ = a.set_insn_limit(None);
+            let r = guarded(|| -> Xresult {
+                a.compile(prog)?;
+                for _ in 0..k1 {
+                    a.next()?;
+                }
+                OK
+            });
+            if !matches!(r, Ok(Ok(()))) {
+                machinery_error(&format!("C03 long-run leg: cannot step the program: {:?}", r.map(|x| x.map_err(|e| err_kind(&e)))));
+            }
+            let mut b = a.clone();
+            let ra = guarded(|| a.run());
+            let rb = guarded(|| b.run());
+            let mut milestones = vec![("run to the end".to_string(), 0usize)];
+            for back in [1usize, 999, 19_000, 50_000, 30_000] {
+                milestones.push((format!("{} more reverse steps", back), back));
+            }
+            let mut total_back = 0;
+            for (what, back) in milestones {
+                let mut res = (String::new(), String::new());
+                for _ in 0..back {
+                    let (x, y) = (guarded(|| a.rnext()), guarded(|| b.rnext()));
+                    res = (format!("{:?}", x.map(|r| res_kind(&r))), format!("{:?}", y.map(|r| res_kind(&r))));
+                    if res.0 != res.1 || !res.0.contains("Ok") {
+                        break;
+                    }
+                }
+                total_back += back;
+                let keep = ["ip", "data", "return", "loops", "special", "heap"];
+                let (da, db) = (project_keep(&a.verif_dump_light(), &keep), project_keep(&b.verif_dump_light(), &keep));
+                if da != db || res.0 != res.1 || (back == 0 && format!("{:?}", ra.as_ref().map(res_kind)) != format!("{:?}", rb.as_ref().map(res_kind))) {
+                    let diff = da.lines().zip(db.lines()).find(|(x, y)| x != y).map(|(x, y)| format!("original `{}` copy `{}`", truncate(x, 200), truncate(y, 200))).unwrap_or_else(|| format!("results {:?}", res));
+                    rep.report_w("long-history:copy-diverges", (k1 + total_back) as u64, || {
+                        jo(vec![
+                            ("kind", js("clone-long-history")),
+                            ("calls", J::A(vec![js("set_recording_enabled(true)"), js(format!("compile {:?}", prog)), js(format!("next() x {}", k1)), js("clone -> copy"), js("run() on both"), js(format!("rnext() x {} on both", total_back))])),
+                            ("at", js(what.clone())),
+                            ("difference", js(diff)),
+                        ])
+                    });
+                    break;
+                }
+            }
+            longrun.push(jo(vec![("copy_taken_after_steps", ji(k1)), ("reverse_steps_compared", ji(total_back))]));
+        }
+        ev.add("long_history_leg", J::A(longrun));
+    }
+    // ---------- observer leg (it redirects the process's stdout while it runs)
+    let (oh, ochecks, oalpha) = observers::run(if quick { 3 } else { 4 }, cfg.threads, &rep);
     ev.add("observer_leg", jo(vec![("histories", ji(oh)), ("checks", ji(ochecks)), ("alphabet", ji(oalpha)), ("depth", ji(if quick { 3 } else { 4 })), ("sources", J::A(observers::sources().iter().map(|s| js(s.clone())).collect()))]));
 
     ev.states = nodes.load(Ordering::Relaxed);
